@@ -34,6 +34,8 @@ pub enum SetupStep {
     Remove(Res),
     /// the world value is moved to a different address (a `World` is an ordinary movable value)
     MoveWorld,
+    /// a shared guard of an existing resource is forgotten (`mem::forget`): its borrow stays
+    LeakShared(Res),
 }
 
 #[derive(Clone, Debug, Serialize, Deserialize)]
@@ -104,7 +106,7 @@ impl Prop for C13 {
         "C13"
     }
     fn rule(&self) -> &'static str {
-        "plans with batches nested 0..3 deep, thread-local systems and many static SystemData shapes (default-providing Read/Write, Option, ReadExpect/WriteExpect, a custom counting SetupHandler, derive struct) x a world in which a generated subset of the 32 resources pre-exists with generated values x a history of 1..3 setup calls interleaved with inserts / removes and moves of the world value to another address, then dispose; one case in four with no top-level thread-local system converts the dispatcher to its sendable form and calls setup / dispose from another thread; oracle: every setup call increments the setup counter of every system at any depth by exactly 1 and calls each custom handler once per member, afterwards every default-provided resource exists, every value that existed before the call is bit-identical, nothing else was created; dispose increments every system's dispose counter exactly once; non-trivial = >= 1 batch with >= 1 inner system and >= 1 pre-existing resource; distinct = hash of the case"
+        "plans with batches nested 0..3 deep, thread-local systems and many static SystemData shapes (default-providing Read/Write, Option, ReadExpect/WriteExpect, a custom counting SetupHandler, derive struct) x a world in which a generated subset of the 32 resources pre-exists with generated values x a history of 1..3 setup calls interleaved with inserts / removes and moves of the world value to another address, then dispose; one case in eight forgets a shared guard of an existing resource first (setup may then refuse by a panic, but may not change what existed); one case in four with no top-level thread-local system converts the dispatcher to its sendable form and calls setup / dispose from another thread; oracle: every setup call increments the setup counter of every system at any depth by exactly 1 and calls each custom handler once per member, afterwards every default-provided resource exists, every value that existed before the call is bit-identical, nothing else was created; dispose increments every system's dispose counter exactly once; non-trivial = >= 1 batch with >= 1 inner system and >= 1 pre-existing resource; distinct = hash of the case"
     }
     fn gen(&self, src: &mut Src) -> C13Case {
         let plan = gen_plan(src, &self.cfg);
@@ -131,6 +133,11 @@ impl Prop for C13 {
                 2 => steps.push(SetupStep::Remove(Res::new(src.pick(res::NT), 0))),
                 _ => steps.push(SetupStep::MoveWorld),
             }
+        }
+        if src.chance(2, 16) {
+            // before one of the setups (position generated)
+            let at = src.pick(steps.len());
+            steps.insert(at, SetupStep::LeakShared(Res::new(src.pick(res::NT), 0)));
         }
         if src.chance(5, 16) {
             steps.push(SetupStep::MoveWorld);
@@ -175,8 +182,15 @@ impl Prop for C13 {
         }
         let mut n_setup = 0u32;
         let mut moved_after_setup = false;
+        let mut leaked: BTreeSet<Res> = BTreeSet::new();
         for step in &case.steps {
             match step {
+                SetupStep::LeakShared(r) => {
+                    if let Some(g) = res::fetch_r(&world, *r) {
+                        std::mem::forget(g);
+                        leaked.insert(*r);
+                    }
+                }
                 SetupStep::MoveWorld => {
                     // the new allocation exists before the old one is freed: the address really changes
                     let mut nb = Box::new(World::empty());
@@ -184,9 +198,16 @@ impl Prop for C13 {
                     world = nb;
                     moved_after_setup = n_setup > 0;
                 }
-                SetupStep::Insert(r, v) => res::insert(&mut world, *r, *v),
+                SetupStep::Insert(r, v) => {
+                    res::insert(&mut world, *r, *v);
+                    leaked.remove(r);
+                }
                 SetupStep::Remove(r) => {
-                    res::remove(&mut world, *r);
+                    // (taking a value out of a cell whose guard was forgotten trips an assertion of
+                    // the cell type itself)
+                    if !leaked.contains(r) {
+                        res::remove(&mut world, *r);
+                    }
                 }
                 SetupStep::Setup => {
                     let before = world_contents(&world);
@@ -219,6 +240,21 @@ impl Prop for C13 {
                     };
                     ctx.set_phase(PHASE_BUILD);
                     if let Err(p) = r {
+                        if !leaked.is_empty() {
+                            // a setup that needs a resource whose guard was forgotten may refuse by a
+                            // panic; what it may not do is change anything that existed
+                            let after = world_contents(&world);
+                            for (r, v) in &before {
+                                if after.get(r) != Some(v) {
+                                    return Err(Fail::new(format!(
+                                        "a setup that panicked (a guard of {:?} had been forgotten) changed the pre-existing resource {:?}: {} -> {:?}",
+                                        leaked, r, v, after.get(r)
+                                    )));
+                                }
+                            }
+                            st.class("setup_refused_because_of_a_forgotten_guard");
+                            return Ok(());
+                        }
                         return Err(Fail::new(format!("setup panicked: {}", panic_msg(&p))));
                     }
                     n_setup += 1;
@@ -1409,10 +1445,11 @@ impl Prop for C04Calls {
         "C04"
     }
     fn rule(&self) -> &'static str {
-        "plans (nested batches with custom / MultiDispatcher controllers, thread-local systems incl. inside batches) x a generated sequence of 1..8 calls drawn from dispatch / dispatch_par / dispatch_seq / dispatch_thread_local / RunNow::run_now on ONE dispatcher x pool size 1..16 x per-system delays; oracle after every call: counter of every ordinary system == number of calls so far that run ordinary systems, every top-level thread-local counter == number of dispatch + dispatch_thread_local calls, inner systems == enclosing batch runs x its dispatch count, nothing is left borrowed; before 1/4 of the histories' calls the world value is moved to another address; 5/16 of the histories arm one or two calls with a system that panics (caught): counting restarts after such a call and every later call must again run everything exactly once; non-trivial = >= 3 calls of >= 2 different kinds on a plan with >= 2 stages or a batch; distinct = case hash"
+        "plans (nested batches with custom / MultiDispatcher controllers, thread-local systems incl. inside batches) x a generated sequence of 1..8 calls drawn from dispatch / dispatch_par / dispatch_seq / dispatch_thread_local / RunNow::run_now on ONE dispatcher x pool size 1..16 or no pool attached at all (rayon's default) x per-system delays; oracle after every call: counter of every ordinary system == number of calls so far that run ordinary systems, every top-level thread-local counter == number of dispatch + dispatch_thread_local calls, inner systems == enclosing batch runs x its dispatch count, nothing is left borrowed; before 1/4 of the histories' calls the world value is moved to another address; 5/16 of the histories arm one or two calls with a system that panics (caught): counting restarts after such a call and every later call must again run everything exactly once; non-trivial = >= 3 calls of >= 2 different kinds on a plan with >= 2 stages or a batch; distinct = case hash"
     }
     fn gen(&self, src: &mut Src) -> C04CallsCase {
-        let threads = [1u8, 2, 3, 4, 8, 16][src.pick(6)];
+        // 0: no pool is attached, the dispatcher makes rayon's default pool for itself
+        let threads = [1u8, 2, 3, 4, 8, 16, 0, 2][src.pick(8)];
         let n = 1 + src.pick(8);
         let calls = (0..n)
             .map(|_| {
@@ -1450,7 +1487,14 @@ impl Prop for C04Calls {
     }
     fn check(&self, case: &C04CallsCase, lane: usize, st: &mut Stats) -> Result<(), Fail> {
         let threads = case.threads.clamp(1, 16) as usize;
-        let mut b = build_plan(&case.plan, pool(lane, threads), &BuildOpts::default())
+        let opts = BuildOpts {
+            no_pool: case.threads == 0,
+            ..BuildOpts::default()
+        };
+        if opts.no_pool {
+            st.class("default_pool");
+        }
+        let mut b = build_plan(&case.plan, pool(lane, threads), &opts)
             .map_err(|e| Fail::keyed("build-or-identify", e))?;
         oracles::check_complete(&b.flat, &b.layouts)?;
         let flat = b.flat.clone();
